@@ -451,6 +451,8 @@ class World:
                 nids = list(ev[1]) if isinstance(ev[1], (tuple, list)) else ev[1]
                 path = self.fw_path(ev[4]) if ev[4] is not None else None
                 obs.ret = self.gw.update_fw(nids, ev[2], ev[3], fw_path=path)
+                if hasattr(obs.ret, "send"):
+                    obs.ret = self._drive(obs.ret)
             elif kind == "metric":
                 self.gw.metric = ev[1]
             elif kind == "clock":
@@ -496,6 +498,24 @@ class World:
             self.utc_offset = self.cfg.get("utc_offset", 3 * 3600)
         self._obs = None
         return obs
+
+    def _drive(self, coro):
+        """Run a coroutine of the asyncio flavour to completion on a private virtual loop; executor jobs
+        (load_fw runs in the executor) are completed in order."""
+        from .vloop import VLoop
+
+        loop = VLoop()
+        try:
+            task = loop.start(coro)
+            guard = 0
+            while not task.done() and loop.executor_jobs and guard < 10:
+                loop.complete_executor(0)
+                guard += 1
+            if not task.done():
+                raise RuntimeError("coroutine did not finish on the virtual loop")
+            return task.result()
+        finally:
+            loop.shutdown()
 
     def fw_path(self, key):
         if self.dir is None:
@@ -602,7 +622,8 @@ class World:
         gw.can_log = snap["can_log"]
         gw.tasks.transport.can_log = snap["t_can_log"]
         gw.tasks.queue.clear()
-        gw.tasks._stop_event.clear()
+        if hasattr(gw.tasks, "_stop_event"):
+            gw.tasks._stop_event.clear()
         for name, val in snap["ota"].items():
             store = getattr(ota, name)
             store.clear()
